@@ -269,12 +269,15 @@ def check(run) -> None:
             break
     if ctl is None:
         ctl = T.corrupt(traces[0], "key", -11) or T.corrupt(traces[0], "tick-grew", -11)
+    v = run.validate_traces("GelTrace", {}, traces + ([ctl] if ctl else []), name="GelTrace_sessions", timeout_s=1500)
     if ctl is None:
-        raise TLCError("no session offers a place for a negative control")
-    v = run.validate_traces("GelTrace", {}, traces + [ctl], name="GelTrace_sessions", timeout_s=1500)
-    if v[ctl["tid"]][0] == "ok":
-        raise TLCError("GelTrace accepted the negative control of the turn sessions")
-    run.ok("GelTrace.negative_control_rejected.session")
+        # no edge ever appeared in any session: a machinery failure unless the sessions themselves are rejected
+        if all(v[t["tid"]][0] == "ok" for t in traces) and not run.violations:
+            raise TLCError("no session offers a place for a negative control")
+    else:
+        if v[ctl["tid"]][0] == "ok":
+            raise TLCError("GelTrace accepted the negative control of the turn sessions")
+        run.ok("GelTrace.negative_control_rejected.session")
     for t in traces:
         verdict, pos = v[t["tid"]]
         run.traces += 1
